@@ -1150,6 +1150,10 @@ class _Normalise(ast.NodeTransformer):
             if unrolled is not None:
                 stmts = stmts[:i] + unrolled + stmts[i + 1:]
                 continue
+            acc = self._accumulate(st, nxt)
+            if acc is not None:
+                stmts = stmts[:i] + [acc] + stmts[i + 2:]
+                continue
             upd = self._update_comp(st)
             if upd is not None:
                 stmts = stmts[:i] + [upd] + stmts[i + 1:]
@@ -1353,6 +1357,25 @@ class _Normalise(ast.NodeTransformer):
     def _unroll(st, before=()):
         """`for v in (e1, ..., en): BODY` over a literal tuple/list of simple expressions (n <= 6, no break/continue/else, v not
         rebound): BODY[v := e1]; ...; BODY[v := en]"""
+        if isinstance(st, ast.For) and not st.orelse and isinstance(st.target, ast.Tuple) and all(isinstance(x, ast.Name) for x in st.target.elts) and isinstance(st.iter, (ast.Tuple, ast.List)):
+            # `for a, b in ((e1, f1), ..., (en, fn)): BODY`  ->  BODY[a := e1, b := f1]; ...
+            names = [x.id for x in st.target.elts]
+            rows = st.iter.elts
+            if not (1 <= len(rows) <= 8) or len(set(names)) != len(names) or not all(isinstance(r, (ast.Tuple, ast.List)) and len(r.elts) == len(names) and all(_is_simple_expr(e) for e in r.elts) for r in rows):
+                return None
+            for b in st.body:
+                for x in ast.walk(b):
+                    if isinstance(x, (ast.Break, ast.Continue, ast.FunctionDef, ast.AsyncFunctionDef, ast.Lambda)):
+                        return None
+                    if isinstance(x, ast.Name) and x.id in names and isinstance(x.ctx, (ast.Store, ast.Del)):
+                        return None
+            out = []
+            for r in rows:
+                for b in st.body:
+                    nb = _Subst(dict(zip(names, r.elts))).visit(copy.deepcopy(b))
+                    ast.fix_missing_locations(nb)
+                    out.append(nb)
+            return out
         if not (isinstance(st, ast.For) and not st.orelse and isinstance(st.target, ast.Name)):
             return None
         it = st.iter
@@ -1398,6 +1421,65 @@ class _Normalise(ast.NodeTransformer):
                 ast.fix_missing_locations(nb)
                 out.append(nb)
         return out
+
+    @staticmethod
+    def _accumulate(st, nxt):
+        """`x = A` then `x += B` (B does not read x)  ->  `x = A + B`;  `d = {...}` then `d[K] = V` (K, V simple, not reading d,
+        K not yet a key)  ->  `d = {..., K: V}`.  Same values in the same evaluation order."""
+        if not (isinstance(st, ast.Assign) and len(st.targets) == 1 and isinstance(st.targets[0], ast.Name)):
+            return None
+        x = st.targets[0].id
+        reads = lambda e: any(isinstance(n, ast.Name) and n.id == x for n in ast.walk(e))  # noqa: E731
+        if reads(st.value):
+            return None
+        if isinstance(nxt, ast.AugAssign) and isinstance(nxt.target, ast.Name) and nxt.target.id == x and not reads(nxt.value) and isinstance(nxt.op, (ast.Add, ast.BitOr)) and not any(isinstance(n, (ast.Await, ast.NamedExpr, ast.Yield, ast.YieldFrom)) for n in ast.walk(nxt.value)):
+            new = ast.Assign(targets=[ast.Name(id=x, ctx=ast.Store())], value=ast.BinOp(left=st.value, op=nxt.op, right=nxt.value))
+            if isinstance(st.value, ast.Constant) and st.value.value == 0 and type(st.value.value) is int and isinstance(nxt.value, ast.Call):
+                new.value = nxt.value  # 0 + f(...) / 0 | f(...): the neutral start of an accumulator
+            ast.copy_location(new, st)
+            ast.fix_missing_locations(new)
+            return new
+        if isinstance(st.value, ast.Dict) and all(k is not None for k in st.value.keys) and isinstance(nxt, ast.Assign) and len(nxt.targets) == 1:
+            t = nxt.targets[0]
+            if isinstance(t, ast.Subscript) and isinstance(t.value, ast.Name) and t.value.id == x and _is_simple_expr(t.slice) and _is_simple_expr(nxt.value) and not reads(t.slice) and not reads(nxt.value):
+                if ast.dump(t.slice) in {ast.dump(k) for k in st.value.keys}:
+                    return None
+                new = ast.Assign(targets=[ast.Name(id=x, ctx=ast.Store())], value=ast.Dict(keys=st.value.keys + [t.slice], values=st.value.values + [nxt.value]))
+                ast.copy_location(new, st)
+                ast.fix_missing_locations(new)
+                return new
+        return None
+
+    def visit_DictComp(self, node):
+        """`{K: V for a, b in ((e1, f1), ...)}` / `{K: V for a in (e1, ...)}` over a literal of simple expressions -> dict display"""
+        self.generic_visit(node)
+        if len(node.generators) != 1:
+            return node
+        g = node.generators[0]
+        if g.is_async or g.ifs or not isinstance(g.iter, (ast.Tuple, ast.List)) or not (1 <= len(g.iter.elts) <= 8):
+            return node
+        if isinstance(g.target, ast.Name):
+            names, rows = [g.target.id], [[e] for e in g.iter.elts]
+        elif isinstance(g.target, ast.Tuple) and all(isinstance(x, ast.Name) for x in g.target.elts):
+            names = [x.id for x in g.target.elts]
+            if not all(isinstance(r, (ast.Tuple, ast.List)) and len(r.elts) == len(names) for r in g.iter.elts):
+                return node
+            rows = [list(r.elts) for r in g.iter.elts]
+        else:
+            return node
+        if len(set(names)) != len(names) or not all(_is_simple_expr(e) for r in rows for e in r):
+            return node
+        if any(isinstance(x, (ast.Lambda, ast.NamedExpr, ast.ListComp, ast.SetComp, ast.DictComp, ast.GeneratorExp)) for x in ast.walk(node.key)) or any(isinstance(x, (ast.Lambda, ast.NamedExpr, ast.ListComp, ast.SetComp, ast.DictComp, ast.GeneratorExp)) for x in ast.walk(node.value)):
+            return node
+        keys, vals = [], []
+        for r in rows:
+            env = dict(zip(names, r))
+            keys.append(_Subst(env).visit(copy.deepcopy(node.key)))
+            vals.append(_Subst(env).visit(copy.deepcopy(node.value)))
+        new = ast.Dict(keys=keys, values=vals)
+        ast.copy_location(new, node)
+        ast.fix_missing_locations(new)
+        return new
 
     @staticmethod
     def _update_comp(st):
@@ -2126,6 +2208,112 @@ class _OrDefault(ast.NodeTransformer):
         return out
 
 
+class _FlagDispatch(ast.NodeTransformer):
+    """`x = K0`, an if-tree whose leaves only assign constants to x, `if <test on x>: A else: B`  ->  the same if-tree with the
+    branch of the final test that the constant selects appended to each leaf (the implicit else leaf takes K0).  Exactly the same
+    executions: the final test reads nothing but x and x is a known constant at the end of every leaf.  The rules read control
+    dependence; a "decide, then act once" flag hides it behind a data dependence."""
+
+    def _blocks(self, node):
+        for field in ("body", "orelse", "finalbody"):
+            b = getattr(node, field, None)
+            if isinstance(b, list) and b and isinstance(b[0], ast.stmt):
+                setattr(node, field, self._block(b))
+
+    def generic_visit(self, node):
+        super().generic_visit(node)
+        if isinstance(node, (ast.stmt, ast.Module, ast.ExceptHandler)):
+            self._blocks(node)
+        return node
+
+    @staticmethod
+    def _const_assign(st):
+        if isinstance(st, ast.Assign) and len(st.targets) == 1 and isinstance(st.targets[0], ast.Name) and isinstance(st.value, ast.Constant):
+            return st.targets[0].id, st.value
+        if isinstance(st, ast.AnnAssign) and isinstance(st.target, ast.Name) and isinstance(st.value, ast.Constant):
+            return st.target.id, st.value
+        return None
+
+    @classmethod
+    def _fold(cls, t, x, k):
+        """truth of a test over the single local x when x == k (None: not decidable)"""
+        if isinstance(t, ast.Name) and t.id == x:
+            return bool(k.value)
+        if isinstance(t, ast.UnaryOp) and isinstance(t.op, ast.Not):
+            v = cls._fold(t.operand, x, k)
+            return None if v is None else not v
+        if isinstance(t, ast.BoolOp):
+            vs = [cls._fold(v, x, k) for v in t.values]
+            if any(v is None for v in vs):
+                return None
+            return all(vs) if isinstance(t.op, ast.And) else any(vs)
+        if isinstance(t, ast.Compare) and len(t.ops) == 1:
+            a, b = t.left, t.comparators[0]
+            val = lambda e: k if isinstance(e, ast.Name) and e.id == x else (e if isinstance(e, ast.Constant) else None)  # noqa: E731
+            va, vb = val(a), val(b)
+            if va is None or vb is None:
+                return None
+            op = t.ops[0]
+            if isinstance(op, (ast.Is, ast.IsNot)):
+                if va.value is None or vb.value is None or isinstance(va.value, bool) or isinstance(vb.value, bool):
+                    same = va.value is vb.value
+                    return same if isinstance(op, ast.Is) else not same
+                return None
+            if isinstance(op, (ast.Eq, ast.NotEq)):
+                same = type(va.value) is type(vb.value) and va.value == vb.value
+                return same if isinstance(op, ast.Eq) else not same
+        return None
+
+    def _leaves_only_assign(self, tree: ast.If, x: str) -> bool:
+        for blk in (tree.body, tree.orelse):
+            if len(blk) == 1 and isinstance(blk[0], ast.If) and blk is tree.orelse:
+                if not self._leaves_only_assign(blk[0], x):
+                    return False
+                continue
+            for st in blk:
+                ca = self._const_assign(st)
+                if ca is None or ca[0] != x:
+                    return False
+        # the tests of the tree must not read x
+        return not any(isinstance(n, ast.Name) and n.id == x for n in ast.walk(tree.test))
+
+    def _specialise(self, tree: ast.If, x: str, k0, final: ast.If):
+        def leaf(blk, k):
+            for st in blk:
+                k = self._const_assign(st)[1]
+            v = self._fold(final.test, x, k)
+            if v is None:
+                raise ValueError
+            return blk + copy.deepcopy(final.body if v else final.orelse)
+        new = copy.copy(tree)
+        new.body = leaf(list(tree.body), k0)
+        if len(tree.orelse) == 1 and isinstance(tree.orelse[0], ast.If):
+            new.orelse = [self._specialise(tree.orelse[0], x, k0, final)]
+        else:
+            new.orelse = leaf(list(tree.orelse), k0)
+        return new
+
+    def _block(self, stmts):
+        out = list(stmts)
+        i = 0
+        while i + 2 < len(out):
+            ca = self._const_assign(out[i])
+            tree, final = out[i + 1], out[i + 2]
+            if ca is not None and isinstance(tree, ast.If) and isinstance(final, ast.If) and self._leaves_only_assign(tree, ca[0]):
+                x, k0 = ca
+                names = {n.id for n in ast.walk(final.test) if isinstance(n, ast.Name)}
+                if names == {x} and not any(isinstance(n, (ast.Call, ast.Await, ast.Attribute, ast.Subscript, ast.NamedExpr)) for n in ast.walk(final.test)):
+                    try:
+                        new = self._specialise(tree, x, k0, final)
+                    except ValueError:
+                        new = None
+                    if new is not None:
+                        ast.fix_missing_locations(new)
+                        out[i + 1:i + 3] = [new]
+            i += 1
+        return out
+
+
 class _AliasFold(ast.NodeTransformer):
     """`x = self.a.b` (single assignment of local x, the chain is not stored to in the function): later loads of x read the chain.
     Analysis vocabulary only: rules name state by its attribute path, a local alias is transparent to them."""
@@ -2246,6 +2434,8 @@ def _inline_new_constants(tree: ast.Module, ref: dict, notes: list) -> ast.Modul
     for _ in range(4):
         cands = {}
         stores = {}
+        # one module-level import / def / class binding of a name is its definition, not a shadowing
+        top = {id(st) for st in tree.body} | {id(a) for st in tree.body if isinstance(st, (ast.Import, ast.ImportFrom)) for a in st.names}
         for x in ast.walk(tree):
             if isinstance(x, ast.Name) and isinstance(x.ctx, (ast.Store, ast.Del)):
                 stores[x.id] = stores.get(x.id, 0) + 1
@@ -2255,10 +2445,10 @@ def _inline_new_constants(tree: ast.Module, ref: dict, notes: list) -> ast.Modul
             elif isinstance(x, ast.arg):
                 stores[x.arg] = stores.get(x.arg, 0) + 5
             elif isinstance(x, (ast.FunctionDef, ast.AsyncFunctionDef, ast.ClassDef)):
-                stores[x.name] = stores.get(x.name, 0) + 5
+                stores[x.name] = stores.get(x.name, 0) + (1 if id(x) in top else 5)
             elif isinstance(x, ast.alias):
                 nm = (x.asname or x.name).split(".")[0]
-                stores[nm] = stores.get(nm, 0) + 5
+                stores[nm] = stores.get(nm, 0) + (1 if id(x) in top else 5)
         for st in tree.body:
             tgt = val = None
             if isinstance(st, ast.Assign) and len(st.targets) == 1 and isinstance(st.targets[0], ast.Name):
@@ -2378,6 +2568,7 @@ def canonicalise(tree: ast.Module, modname: str, is_package: bool = False):
     tree = _SuppressToTry().visit(tree)
     tree = _HoistChained().visit(tree)
     tree = _OrDefault().visit(tree)
+    tree = _FlagDispatch().visit(tree)
     tree = _AliasFold().visit(tree)
     tree = _Normalise(tree).visit(tree)
     ast.fix_missing_locations(tree)
